@@ -204,7 +204,9 @@ func (c *fromCtx) node(v reflect.Value) *ref.Node {
 			for i := range b {
 				b[i] = byte(v.Index(i).Uint())
 			}
-			return &ref.Node{Kind: ref.Bytes, Bs: b}
+			// a user-defined byte-slice type (type MyBytes []byte, []MyUint8) is not documented to
+			// travel as a byte string: a list of integers is accepted as well
+			return &ref.Node{Kind: ref.Bytes, Bs: b, Alt: t != tBytes}
 		}
 		n := &ref.Node{Kind: ref.List}
 		for i := 0; i < v.Len(); i++ {
@@ -217,7 +219,7 @@ func (c *fromCtx) node(v reflect.Value) *ref.Node {
 			for i := range b {
 				b[i] = byte(v.Index(i).Uint())
 			}
-			return &ref.Node{Kind: ref.Bytes, Bs: b}
+			return &ref.Node{Kind: ref.Bytes, Bs: b, Alt: t.Elem() != tBytes.Elem()}
 		}
 		n := &ref.Node{Kind: ref.List}
 		for i := 0; i < v.Len(); i++ {
